@@ -27,4 +27,17 @@ def jobs(tier):
                             "unwind": tl + 18, "solver": "cadical",
                             "shape": "AF_INET%s, libc text of %d chars (symbolic), buffer %d bytes, port and address symbolic" % ("6" if af == 6 else "", tl, bs),
                             "desc": "format == conventional text, sizes, no overrun; parse(format(a,port)) == (a,port)"})
+    for af, tlens in ((4, [7, 15]), (6, [2, 39])):
+        for tl in tlens:
+            for bs in (sorted(set([0, 1, tl - 1, tl, tl + 1, tl + 2, tl + 3])) if tier == "quick" else list(range(0, tl + 4))):
+                for nl, nt in (((0, 0), (1, 1)) if tier == "quick" else ((0, 0), (1, 0), (0, 1), (1, 1), (2, 2))):
+                    if tier == "quick" and (nl, nt) != (0, 0) and bs not in (tl + 1, tl + 2):
+                        continue
+                    out.append({"name": "addr-af%d-t%d-bs%d-d%d%d" % (af, tl, bs, nl, nt), "src": "text.c",
+                                "defs": {"AF": af, "TLEN": tl, "BS": bs, "MODE": 1, "NL": nl, "NT": nt}, "unwind": max(tl + 8, 19), "solver": "cadical",
+                                "shape": "AF_INET%s text %d chars, sa_addr_to_str buffer %d, parse with %d leading / %d trailing decoration chars" % ("6" if af == 6 else "", tl, bs, nl, nt),
+                                "desc": "sa_addr_to_str text/sizes/no overrun; sa_addr_from_str accepts decorated text, rejects what libc rejects"})
+            out.append({"name": "net-af%d-t%d" % (af, tl), "src": "text.c", "defs": {"AF": af, "TLEN": tl, "BS": 64, "MODE": 2}, "unwind": max(tl + 12, 19),
+                        "solver": "cadical", "shape": "addr/len text, addr %d chars, every prefix length" % tl,
+                        "desc": "str_net_to_ss parses address and prefix length; default host prefix"})
     return out
